@@ -261,6 +261,11 @@ func (m *Model) Draw(win vaxis.Window) {
 	if m.offset < 0 {
 		m.offset = 0
 	}
+	// Don't keep text scrolled out on the left while there is room for it:
+	// scroll back as far as the rest of the line and the cursor cell allow
+	for m.offset > 0 && col+widthFrom(chars, m.offset-1)+1 <= winW {
+		m.offset -= 1
+	}
 
 	for i, char := range m.content {
 		if i < m.offset {
@@ -301,6 +306,15 @@ func isAlphaNumeric(c vaxis.Character) bool {
 		return unicode.IsLetter(r) || unicode.IsNumber(r)
 	}
 	return false
+}
+
+// widthFrom returns the width of all characters from offset to the end
+func widthFrom(chars []vaxis.Character, offset int) int {
+	w := 0
+	for _, ch := range chars[offset:] {
+		w += ch.Width
+	}
+	return w
 }
 
 func widthToCursor(chars []vaxis.Character, cursor int, offset int) int {
